@@ -23,8 +23,11 @@ class Prop(PoolProp):
 
     def cover_cfgs(self, tier):
         # two calls on one pool; a factory pool whose only worker retires after every chunk
-        cfgs = [Cfg(n_workers=1, calls=[(1, 1, True), (1, 1, False)]), Cfg(n_workers=1, factory=True, quota=1, calls=[(2, 1, True)])]
+        cfgs = [Cfg(n_workers=1, calls=[(1, 1, True), (1, 1, False)]), Cfg(n_workers=1, factory=True, quota=1, calls=[(2, 1, True)]),
+                # a finite join_timeout: the retired worker may still be in end() when its successor starts and when __exit__ returns
+                Cfg(n_workers=1, factory=True, quota=1, calls=[(1, 1, True)], join_timeout=True)]
         if tier == "thorough":
+            cfgs.append(Cfg(n_workers=1, factory=True, quota=1, calls=[(2, 1, True)], join_timeout=True))
             cfgs += [Cfg(n_workers=1, factory=True, quota=1, calls=[(1, 1, True), (1, 1, True)]),
                      Cfg(n_workers=2, factory=True, quota=1, calls=[(2, 1, False)])]
         return cfgs
